@@ -1,4 +1,4 @@
-import DispatchVerif.Core.LaneWStep7
+import DispatchVerif.Core.LaneWStep8
 /-! C04 calibration, main theorems: a barrier item running on a lane of any width excludes every
     other item of that lane, for any number of threads and any schedule. -/
 namespace LaneW
@@ -21,6 +21,7 @@ theorem step_local {W : Nat} (hW : 1 ≤ W) {sh : Sh} {t : Tid} {pc : Pc} {op : 
   | sWait i b => exact step_sync hW g l h (Or.inr (Or.inr (Or.inl ⟨i, b, rfl⟩)))
   | run i a => exact step_sync hW g l h (Or.inr (Or.inr (Or.inr (Or.inl ⟨i, a, rfl⟩))))
   | running i a => exact step_sync hW g l h (Or.inr (Or.inr (Or.inr (Or.inr (Or.inl ⟨i, a, rfl⟩)))))
+  | runningA i a k => exact step_runningA g l h
   | sFastUnlock => exact step_sync hW g l h (Or.inr (Or.inr (Or.inr (Or.inr (Or.inr rfl)))))
   | nbc c k => exact step_nbc hW g l h
   | bc1 c k => exact step_barrier hW g l h (Or.inl ⟨c, k, rfl⟩)
@@ -113,6 +114,27 @@ theorem barrier_owner_unique {W : Nat} (hW : 1 ≤ W) {s : St} (h : Reachable W 
     (ht : holdsB (s.pcs t) = true) (ht' : holdsB (s.pcs t') = true) : t = t' := by
   have inv := inv_reachable hW h
   exact lockedB_unique ((inv.l t).ownB ht).1 ((inv.l t').ownB ht').1
+
+theorem holdsB_of_isRunningB {pc : Pc} (h : isRunningB pc = true) : holdsB pc = true := by
+  cases pc <;> simp_all [isRunningB, holdsB]
+
+theorem unit_of_isRunningN {pc : Pc} (h : isRunningN pc = true) : 1 ≤ unitsOf pc := by
+  cases pc <;> simp_all [isRunningN, unitsOf]
+
+/-- **Barrier exclusion, all item pcs** (inside an item, with or without width reserved for a nested
+    dispatch_apply): a thread inside a barrier item excludes every other thread inside any item of the lane -/
+theorem barrier_exclusion_gen {W : Nat} (hW : 1 ≤ W) {s : St} (h : Reachable W s) (t t' : Tid)
+    (hb : isRunningB (s.pcs t) = true)
+    (hb' : isRunningB (s.pcs t') = true ∨ isRunningN (s.pcs t') = true) : t = t' := by
+  have inv := inv_reachable hW h
+  have hl := ((inv.l t).ownB (holdsB_of_isRunningB hb)).1
+  rcases hb' with hb' | hb'
+  · exact lockedB_unique hl ((inv.l t').ownB (holdsB_of_isRunningB hb')).1
+  · have hh := (inv.g.gB hl.2).1
+    have := (inv.l t').cnt
+    have := unit_of_isRunningN hb'
+    simp [hh] at *
+    omega
 
 end LaneW
 
